@@ -159,6 +159,10 @@ void harness(void)
               "upload and abort requests do not modify objects");
     }
     CHECK(od_dom.Offset <= od_dom.Size, "domain offset within the domain");
+    /* a client abort ends whatever transfer is open (C04 / C05: the next request starts from an idle server) */
+    if ((cmd == 0x80) && (dlc >= 1)) {
+        CHECK(s->Obj == 0 && s->Blk.State == BLK_IDLE, "client abort leaves the server idle");
+    }
 #if CO_SSDO_N > 1
     {
         CO_SDO *s1 = &node.Sdo[1];
@@ -219,6 +223,10 @@ void harness(void)
             if (is_abort) {
                 CHECK(unchanged, "a refused request changes nothing");
                 CHECK(s->Obj == 0 && s->Blk.State == BLK_IDLE, "server idle after refusing a request");
+            }
+            /* an expedited transfer is complete with its confirmation */
+            if ((((cmd & 0xF2) == 0x22) || ((cmd == 0x40) && ((r->Data[0] & 0xE2) == 0x42))) && !is_abort) {
+                CHECK(s->Obj == 0 && s->Blk.State == BLK_IDLE, "no transfer stays open after an expedited transfer");
             }
             /* whatever an earlier transfer left behind: a segmented transfer opened now starts at toggle 0, byte 0 */
             if ((((cmd & 0xF2) == 0x20) || (cmd == 0x40)) && !is_abort && (s->Obj != 0) && (s->Blk.State == BLK_IDLE)) {
